@@ -958,7 +958,8 @@ package starlark
 // completely blank, so nothing an earlier call left in it (pc, locals, callable) can show up in
 // the positions or backtraces of a later execution on the same thread
 //@ func Call$1
-//@   prop C03 C16
+//@   prop C03 C16 C06
+//@   ensures frame_popped: len(thread.stack) == old(len(thread.stack)) - 1
 //@   ensures released_frame_is_blank: isnil(fr.callable) && fr.pc == 0 && isnil(fr.locals) && len(fr.locals) == 0 && fr.spanStart == 0
 // the same for the push iterator over a hashtable (Dict.Entries, Set.Elements)
 //@ func hashtable.entries$1
@@ -1029,3 +1030,31 @@ package starlark
 //@ func stringRepeat
 //@   prop C02 C13
 //@   ensures excessive_repeat_refused: len(s) > 0 && val(n) >= 1 && val(n) * len(s) >= 1073741824 ==> result1 != nil
+
+// ---- the VM's deferred cleanup (C06): whatever way the function is left -- return, error, panic,
+// cancellation -- every iterator still on the VM's iterator stack is released
+//@ func Function.CallInternal$1
+//@   prop C06
+//@   invariant 1 rangeindex >= -1 && rangeindex + 1 <= len(old(captured(iterstack))) && g_open == old(g_open) - (rangeindex + 1)
+//@   ensures every_live_iterator_is_released: g_open == old(g_open) - len(old(captured(iterstack)))
+// (profiling: endProfSpan copies the stack into an event it sends to the profiler goroutine; of
+// the thread it writes only the time accumulator -- a trusted frame, the channel send is outside
+// the verified subset)
+//@ func Thread.endProfSpan
+//@   trusted sends a copy of the stack over a channel; writes only thread.proftime
+//@   modifies thread.proftime
+//@ func Thread.beginProfSpan
+//@   trusted reads the clock; writes only the span start of the top frame
+//@   modifies frame.spanStart
+
+// ---- the call stack is restored on every way out of Call (C06): normal return, error, and a
+// panic of the callee (a host built-in) -- the pop is deferred. The callee is assumed to leave the
+// stack as deep as it found it (that is this very contract, for nested calls).
+//@ func Call
+//@   prop C06
+//@   callback CallInternal preserves captured(thread)
+//@   callback CallInternal preserves len(param(thread).stack)
+//@   onpanic frame_popped_if_the_callee_panics: len(param(thread).stack) == old(len(thread.stack))
+//@   ensures frame_popped: len(param(thread).stack) == old(len(thread.stack))
+//@ func Thread.evalError
+//@   modifies nothing
